@@ -33,7 +33,8 @@ class ASeq(object):
         self.upper = upper
 
     def __repr__(self):
-        return "%s<%s>" % (self.kind, show_pieces(self.pieces))
+        # `upper` is True after .upper(), False by default and after .lower(): a case-normalised text says so
+        return "%s<%s>%s" % (self.kind, show_pieces(self.pieces), " upper" if self.upper else "")
 
 
 class ARec(object):
@@ -681,6 +682,22 @@ class Interp(object):
         if isinstance(op, (ast.Is, ast.IsNot)):
             same = self.identical(l, r)
             return same if isinstance(op, ast.Is) else not same
+        if isinstance(op, (ast.Eq, ast.NotEq)) and isinstance(l, AObj) and isinstance(l.cls, ClassInfo):
+            # an object of the code base whose class spells out equality: == runs its __eq__, != its __ne__ (Python 3:
+            # the negation of __eq__ when there is none); NotImplemented falls back to identity
+            name = "__eq__" if isinstance(op, ast.Eq) else "__ne__"
+            owner, raw = self.p.class_attr_def(l.cls, name)
+            negate = False
+            if not isinstance(raw, FuncInfo) and name == "__ne__":
+                owner, raw = self.p.class_attr_def(l.cls, "__eq__")
+                negate = True
+            if isinstance(raw, FuncInfo):
+                res = self.call_function(raw, [l, r], {}, node)
+                if res is NotImplemented or (isinstance(res, AStruct) and res.kind == "NotImplemented"):
+                    same = l is r
+                    return same if isinstance(op, ast.Eq) else not same
+                res = self.truth(res, node)
+                return (not res) if negate else res
         if isinstance(op, (ast.Eq, ast.NotEq)):
             eq = self.equal(l, r)
             return eq if isinstance(op, ast.Eq) else not eq
@@ -735,6 +752,56 @@ class Interp(object):
                 return self.path.termeq[k]
         raise AnalysisError("cannot compare %r == %r" % (l, r))
 
+    def key_of(self, k, node=None):
+        """what a dict sees of a key: an object of a class of the code base that defines __eq__ and __hash__ on one of its
+        attributes each (`return self.a == other.a`, `return hash(self.b)`) stands for the finer of the two attribute
+        values -- the same one when the two methods agree, as they must"""
+        if not (isinstance(k, AObj) and isinstance(k.cls, ClassInfo)):
+            return k
+        o1, eq = self.p.class_attr_def(k.cls, "__eq__")
+        o2, hs = self.p.class_attr_def(k.cls, "__hash__")
+        if not isinstance(eq, FuncInfo) and not isinstance(hs, FuncInfo):
+            return k  # identity
+        if not (isinstance(eq, FuncInfo) and isinstance(hs, FuncInfo)):
+            raise AnalysisError("%s defines only one of __eq__ / __hash__; its use as a dictionary key is not modelled" % k.cls.qualname)
+
+        def attr_of(fn: FuncInfo, which: str):
+            ps = [a.arg for a in fn.node.args.args]
+            found = set()
+            for n in ast.walk(fn.node):
+                if not isinstance(n, ast.Return) or n.value is None:
+                    continue
+                v = n.value
+                if which == "eq" and isinstance(v, ast.Compare) and len(v.ops) == 1 and isinstance(v.ops[0], ast.Eq) and len(ps) == 2 \
+                        and isinstance(v.left, ast.Attribute) and isinstance(v.comparators[0], ast.Attribute) \
+                        and isinstance(v.left.value, ast.Name) and isinstance(v.comparators[0].value, ast.Name) \
+                        and {v.left.value.id, v.comparators[0].value.id} == set(ps) and v.left.attr == v.comparators[0].attr:
+                    found.add(v.left.attr)
+                elif which == "eq" and (isinstance(v, ast.Name) and v.id == "NotImplemented" or isinstance(v, ast.Constant) and v.value is False):
+                    continue
+                elif which == "hash" and isinstance(v, ast.Call) and isinstance(v.func, ast.Name) and v.func.id == "hash" and len(v.args) == 1 \
+                        and isinstance(v.args[0], ast.Attribute) and isinstance(v.args[0].value, ast.Name) and v.args[0].value.id == ps[0]:
+                    found.add(v.args[0].attr)
+                else:
+                    return None
+            return found.pop() if len(found) == 1 else None
+
+        a, b = attr_of(eq, "eq"), attr_of(hs, "hash")
+        if a is None or b is None or a not in k.attrs or b not in k.attrs:
+            raise AnalysisError("%s: __eq__ / __hash__ are not of the form `self.x == other.x` / `hash(self.y)`; its use as a dictionary key is not modelled" % k.cls.qualname)
+        q, x = k.attrs[a], k.attrs[b]
+        if repr(q) == repr(x):
+            return q
+
+        def inside(small, big):
+            return isinstance(big, Term) and (repr(small) == repr(big) or any(inside(small, y) for y in big.args))
+
+        if inside(q, x):
+            return q  # the hash is computed from what equality compares: equality decides
+        if inside(x, q):
+            return x  # equality compares something computed from what is hashed: the hash already separates
+        raise AnalysisError("%s: __eq__ compares .%s and __hash__ hashes .%s, which are not derived from one another" % (k.cls.qualname, a, b))
+
     def truth(self, v, node=None) -> bool:
         if isinstance(v, bool):
             return v
@@ -753,7 +820,21 @@ class Interp(object):
         if isinstance(v, Term) and v.op == "maybe-none":
             return not self.identical(v, None)
         if isinstance(v, ABoolTerm):
-            return self.path.choose("bool %r" % v)
+            res = self.path.choose("bool %r" % v)
+            self.path.effects.append(("bool", v, res))
+            # what a membership test found out holds for a later .index() of the same item in the same list
+            inner, pos = v, True
+            while inner.op == "not" and len(inner.args) == 1 and isinstance(inner.args[0], ABoolTerm):
+                inner, pos = inner.args[0], not pos
+            if inner.op == "in" and len(inner.args) == 2 and isinstance(inner.args[1], Term):
+                self.path.termeq[("member", repr(inner.args[1]), repr(inner.args[0]))] = (res == pos)
+            return res
+        if isinstance(v, AObj) and isinstance(v.cls, ClassInfo):
+            # an object of the code base is true unless its class says otherwise (__bool__, else __len__)
+            for special in ("__bool__", "__nonzero__", "__len__"):
+                owner, raw = self.p.class_attr_def(v.cls, special)
+                if isinstance(raw, FuncInfo):
+                    return self.truth(self.call_function(raw, [v], {}, node), node)
         if isinstance(v, (AObj, ARec, AStruct, AReMatch)):
             return True
         if isinstance(v, Term):
@@ -910,8 +991,9 @@ class Interp(object):
                     return True
             return ABoolTerm("in", item, container)
         if isinstance(container, ASeq):
-            return ABoolTerm("in", item, ASeq(container.kind, self.canon(container.pieces)))
+            return ABoolTerm("in", item, ASeq(container.kind, self.canon(container.pieces), container.upper))
         if isinstance(container, AMap):
+            item = self.key_of(item)
             for k, _ in container.adds:
                 if isinstance(k, Term) and k == item:
                     return True
@@ -977,6 +1059,35 @@ class Interp(object):
             if kind == "opaque":
                 raise AnalysisError("%s: decorator @%s of %s: %s" % (fi.where(), text, fi.qualname, detail))
 
+    def dispatch_single(self, fi: FuncInfo, arg, node) -> FuncInfo:
+        """the implementation functools.singledispatch picks for `arg`: the registered type closest to the argument's
+        class (repo classes before library classes, subclasses before their bases), else the dispatcher's own body"""
+        regs = []
+        # implementations: functions -- and classes, whose constructor then is the implementation -- decorated with
+        # @<dispatcher>.register(T)
+        for g in list(fi.module.functions.values()) + list(fi.module.classes.values()):
+            for d in g.node.decorator_list:
+                if isinstance(d, ast.Call) and isinstance(d.func, ast.Attribute) and d.func.attr == "register" \
+                        and isinstance(d.func.value, ast.Name) and d.func.value.id == fi.name and d.args:
+                    t = Frame(self, None, {}, module=fi.module).expr(d.args[0])
+                    regs.append((t, g))
+        if not regs:
+            raise AnalysisError("%s: singledispatch function %s has no registered implementation the analysis can see" % (fi.where(), fi.qualname))
+
+        def rank(t):
+            # more specific first: repo classes (deeper MRO first), then library classes; object last
+            if isinstance(t, ClassInfo):
+                return (0, -len(self.p.mro(t)))
+            if isinstance(t, LibRef) and t.dotted in ("builtins.object",):
+                return (9, 0)
+            return (1, 0)
+
+        fr = Frame(self, None, {}, module=fi.module)
+        for t, g in sorted(regs, key=lambda tg: rank(tg[0])):
+            if lib_isinstance(fr, arg, t, node):
+                return g
+        return fi
+
     def call_function(self, fi: FuncInfo, args: List[object], kwargs: Dict[str, object], node=None, on_yield=None):
         hook = self.hooks.get(fi.qualname)
         if hook is not None:
@@ -985,6 +1096,12 @@ class Interp(object):
                 return r
         if fi.node.decorator_list:
             self.check_decorators(fi)
+            if fi.owner is None and args and any(ast.unparse(d.func if isinstance(d, ast.Call) else d).endswith("singledispatch") for d in fi.node.decorator_list):
+                impl = self.dispatch_single(fi, args[0], node)
+                if isinstance(impl, ClassInfo):
+                    return self.frames[-1].instantiate(impl, args, kwargs, node) if self.frames else Frame(self, None, {}, module=fi.module).instantiate(impl, args, kwargs, node)
+                if impl is not fi:
+                    return self.call_function(impl, args, kwargs, node, on_yield)
         is_gen = _is_generator(fi.node)
         if is_gen and on_yield is None and "contextmanager" in fi.decorators:
             return ACtxMgr(fi, list(args), dict(kwargs))
@@ -1071,6 +1188,10 @@ class Interp(object):
                 if "cached_property" in raw.decorators:
                     obj.attrs[key] = v
                 return v
+            if raw.kind == "classproperty":
+                # (the kernels describe "an instance of some concrete subclass" by an object that carries the subclass's
+                # class-level settings -- its cutter -- as attributes: that object stands for its class here)
+                return self.call_function(raw, [obj if "cutter" in obj.attrs else obj.cls], {}, node)
             if raw.kind == "classmethod":
                 return BoundMethod("repo", raw, name, extra=[obj.cls])
             if raw.kind == "staticmethod":
@@ -1079,6 +1200,26 @@ class Interp(object):
         if isinstance(raw, Const):
             return raw.value
         if isinstance(raw, ast.AST):
+            if isinstance(raw, ast.Call) and isinstance(raw.func, ast.Name) and raw.func.id in ("staticmethod", "classmethod") \
+                    and len(raw.args) == 1 and not raw.keywords and isinstance(raw.args[0], (ast.Name, ast.Attribute)):
+                # `helper = staticmethod(module_function)` in a class body
+                try:
+                    wrapped = self.p.resolve_expr(owner.module, raw.args[0])
+                except Exception:
+                    wrapped = None
+                if isinstance(wrapped, FuncInfo):
+                    return BoundMethod("repo", wrapped, name, extra=[] if raw.func.id == "staticmethod" else [obj.cls])
+            if isinstance(raw, (ast.Attribute, ast.Name)):
+                # `hook = Base._method` / `hook = module_function` in a class body: a function is a descriptor wherever it
+                # was defined -- looked up on an instance it is bound to that instance
+                try:
+                    alias = self.p.resolve_expr(owner.module, raw)
+                except Exception:
+                    alias = None
+                if isinstance(alias, FuncInfo) and alias.kind in ("method", "function"):
+                    return BoundMethod("repo", alias, name, extra=[obj])
+                if isinstance(alias, FuncInfo) and alias.kind == "property":
+                    return self.call_function(alias, [obj], {}, node)
             ok, v = _fold_class_data(self.p, owner, name)
             if ok:
                 return v
@@ -1196,6 +1337,7 @@ class Frame(object):
                     obj = self.expr(t.value)
                     key = self.expr(t.slice)
                     if isinstance(obj, AMap):
+                        key = I.key_of(key)
                         map_getitem(self, obj, key)  # KeyError when absent
                         obj.removes.append(key)
                         obj.adds = [(k, v) for k, v in obj.adds if not (isinstance(k, Term) and k == key)]
@@ -1463,6 +1605,8 @@ class Frame(object):
         if isinstance(target, ast.Subscript):
             obj = self.expr(target.value)
             key = self.expr(target.slice) if not isinstance(target.slice, ast.Slice) else None
+            if isinstance(obj, (dict, AMap)) and key is not None:
+                key = self.I.key_of(key)
             if isinstance(obj, dict) and key is not None:
                 obj[_hashable(key)] = v
                 self.I.path.effects.append(("setitem", obj, key, v))
@@ -1534,6 +1678,7 @@ class Frame(object):
                 for nm, v in list(self.env.items()):
                     if isinstance(v, dict) and not v and nm in used:
                         self.env[nm] = AMap("map:" + nm, make_value=I.hooks.get("map_value"))
+                        self._rebind_methods(v, self.env[nm])
                 I.path.effects.append(("loop", it.source, it.items[0] if it.items else None))
             else:
                 I.path.effects.append(("loop", "generic-list", it))
@@ -1586,10 +1731,22 @@ class Frame(object):
             return
         elif isinstance(it, ACollection):
             used = {n.id for b in st.body for n in ast.walk(b) if isinstance(n, ast.Name)}
+            # (a bound method of such a dict taken before the loop -- claim = modmap.setdefault -- counts as a use)
+            for nm, v in list(self.env.items()):
+                if isinstance(v, BoundMethod) and v.kind == "dict" and isinstance(v.target, dict) and not v.target and nm in used:
+                    for nm2, v2 in self.env.items():
+                        if v2 is v.target:
+                            used.add(nm2)
             for nm, v in list(self.env.items()):
                 if isinstance(v, dict) and not v and nm in used:
                     # a dict filled by the loop: after an unknown number of earlier iterations its content is unknown
                     self.env[nm] = AMap("map:" + nm, make_value=I.hooks.get("map_value"))
+                    self._rebind_methods(v, self.env[nm])
+                elif isinstance(v, AObj) and nm in used and isinstance(v.cls, ClassInfo):
+                    # ... or the dict a small object of the code base keeps for the loop (index.add(module))
+                    for an, av in list(v.attrs.items()):
+                        if isinstance(av, dict) and not av:
+                            v.attrs[an] = AMap("map:%s.%s" % (nm, an), make_value=I.hooks.get("map_value"))
             elem = it.make_elem()
             I.path.effects.append(("loop", it.name, elem))
             self.assign(st.target, elem)
@@ -1666,6 +1823,12 @@ class Frame(object):
             except LoopBreak:
                 return
         self.block(st.orelse)
+
+    def _rebind_methods(self, old, new):
+        """bound methods of a dict taken before it became a symbolic map follow it"""
+        for nm, v in list(self.env.items()):
+            if isinstance(v, BoundMethod) and v.kind == "dict" and v.target is old:
+                self.env[nm] = BoundMethod("map", new, v.name)
 
     def drive_generator(self, it: "AGenCall", on_yield, node):
         """run the body of a lazy generator, handing every value it yields to ``on_yield`` (the consumer's step) at the
@@ -1934,6 +2097,8 @@ class Frame(object):
                     return BoundMethod("py", lambda fr2, args, kwargs, node2: fr2.instantiate(base, list(args[0].items if isinstance(args[0], AList) else args[0]), {}, node2), a)
                 self.unsupported(node, "class attribute")
             if isinstance(raw, FuncInfo):
+                if raw.kind == "classproperty":
+                    return I.call_function(raw, [base], {}, node)
                 if raw.kind == "classmethod":
                     return BoundMethod("repo", raw, a, extra=[base])
                 return BoundMethod("repo", raw, a, extra=[])
@@ -1952,6 +2117,12 @@ class Frame(object):
         if isinstance(base, ARec) and base.circular and a.startswith("__") is False:
             ci = I.p.get_class("moclo.record.CircularRecord")
             raw = ci.attrs.get(a)
+            if raw is None:
+                # defined on a mixin / base class of the repository the record class is put together from
+                try:
+                    raw = I.p.class_attr_def(ci, a)[1]
+                except Exception:
+                    raw = None
             if isinstance(raw, FuncInfo) and raw.kind == "method" and (I.hooks.get("inline_record_methods") or a.startswith("_")):
                 return BoundMethod("repo", raw, a, extra=[base])
             if isinstance(raw, FuncInfo) and raw.kind == "staticmethod":
@@ -2066,6 +2237,12 @@ class Frame(object):
             raise RaiseSig(AExc("KeyError", [idx], {}))
         if isinstance(base, LibRef):
             return base  # typing.Generic[...]
+        if isinstance(base, AObj) and isinstance(base.cls, ClassInfo) and not any(isinstance(c, Ext) and c.dotted != "builtins.object" for c in I.p.mro(base.cls)):
+            # an object of a class of the code base (no library base that might bring it): obj[k] is its __getitem__
+            owner, raw = I.p.class_attr_def(base.cls, "__getitem__")
+            if isinstance(raw, FuncInfo):
+                return I.call_function(raw, [base, idx], {}, node)
+            raise RaiseSig(AExc("TypeError", ["'%s' object is not subscriptable" % base.cls.name], {}))
         self.unsupported(node, "subscript of %r" % (base,))
 
     def e_BinOp(self, e):
@@ -2284,7 +2461,10 @@ class Frame(object):
         return ALambda(e, self, defaults)
 
     def e_GeneratorExp(self, e):
-        return self.comprehension(e, "gen")
+        res = self.comprehension(e, "gen")
+        if isinstance(res, AList) and res.generic:
+            res._one_shot = "generator"  # an iterator: whoever walks it first exhausts it
+        return res
 
     def e_ListComp(self, e):
         return self.comprehension(e, "list")
@@ -2782,6 +2962,19 @@ def _table_term(d: dict) -> Term:
     return Term("table", Term(",".join(sorted(str(k) for k in d if isinstance(k, (str, int))))))
 
 
+def _concrete(v) -> bool:
+    """a plain Python constant (possibly nested in tuples / dicts), nothing symbolic in it"""
+    if isinstance(v, (str, int, bool, type(None), bytes)):
+        return True
+    if isinstance(v, Aff):
+        return v.is_const
+    if isinstance(v, tuple):
+        return all(_concrete(x) for x in v)
+    if isinstance(v, dict):
+        return all(_concrete(k) and _concrete(x) for k, x in v.items())
+    return False
+
+
 def _hashable(k):
     if isinstance(k, (str, int, type(None), Term)):
         return k
@@ -2964,7 +3157,7 @@ def lib_getattr(fr: Frame, base, a: str, node):
         if a in ("span", "start", "end", "group"):
             return BoundMethod("rematch", base, a)
     if isinstance(base, AEnzymeV):
-        if a in ("is_3overhang", "is_5overhang", "is_blunt", "is_unknown", "catalyse"):
+        if a in ("is_3overhang", "is_5overhang", "is_blunt", "is_unknown", "catalyse", "search"):
             return BoundMethod("enzyme", base, a)
         return Term(a, Term("cutter"))
     if isinstance(base, AStruct) and base.kind == "re-match-const":
@@ -3109,6 +3302,10 @@ def lib_call_method(fr: Frame, bm: BoundMethod, args, kwargs, node):
         if name == "catalyse":
             I.path.effects.append(("catalyse", t, list(args), dict(kwargs)))
             return Term("fragments", *[_t(a) for a in args])
+        if name == "search":
+            # Bio.Restriction (T4): catalyse() cuts at the positions search() reports -- k positions, k + 1 fragments
+            I.path.effects.append(("catalyse", t, list(args), dict(kwargs)))
+            return AStruct("cut-sites", frags=Term("fragments", *[_t(a) for a in args]))
     if bm.kind == "features" and name == "append":
         t.added_features.append(args[0])
         I.path.effects.append(("append-feature", t, args[0]))
@@ -3129,10 +3326,19 @@ def lib_call_method(fr: Frame, bm: BoundMethod, args, kwargs, node):
             I.path.effects.append(("mutate", t, name, args))
             if name in ("append", "insert"):
                 I.path.termeq[("appended", repr(t))] = I.path.termeq.get(("appended", repr(t)), 0) + 1
+                if args:
+                    I.path.termeq[("member", repr(t), repr(args[-1]))] = True
             if name == "setdefault":
                 return Term("setdefault", t, *[_t(a) for a in args])
             return None
         if name == "index" and len(args) == 1:
+            # list.index answers the membership question too: ValueError when the item is not there
+            mk = ("member", repr(t), repr(args[0]))
+            if mk not in I.path.termeq:
+                I.path.termeq[mk] = I.path.choose("bool in(%r, %r)" % (args[0], t))
+                I.path.effects.append(("contains", t, args[0], I.path.termeq[mk]))
+            if not I.path.termeq[mk]:
+                raise RaiseSig(AExc("ValueError", ["%r is not in list" % (args[0],)], {}))
             I.path.effects.append(("index-of", t, args[0]))
             return Aff.sym("index(%r,%r)" % (t, args[0]))
         if name == "find" and t.op == "setdefault" and t.args and repr(t.args[-1]) in ("[]", "Term([])"):
@@ -3169,6 +3375,14 @@ def lib_call_method(fr: Frame, bm: BoundMethod, args, kwargs, node):
         if name == "copy" and not args:
             return dict(t)
     if bm.kind == "alist":
+        if name == "translate" and len(args) == 1 and not kwargs and t.generic and len(t.items) == 1 and isinstance(t.items[0], Term) \
+                and isinstance(args[0], dict) and args[0] and all(isinstance(k, int) and isinstance(v, str) for k, v in args[0].items()):
+            # a text of arbitrary letters through str.translate with a table made by str.maketrans({letter: text}): every
+            # letter x on its own, in order, becomes table.get(x, x)
+            x = t.items[0]
+            img = AList([Term("table-get", _table_term({chr(k): v for k, v in args[0].items()}), x, x)], t.depth, origin="translate:" + t.uid)
+            img.generic, img.generic_from, img.min_len = True, 0, t.min_len
+            return AJoin("", img)
         if name == "append":
             if t.depth < I.loop_depth and not t.generic:
                 t.generic = True
@@ -3233,6 +3447,16 @@ def lib_call_method(fr: Frame, bm: BoundMethod, args, kwargs, node):
             return Term("join", Term(repr(t)), _t(a0))
         if name in ("lower", "upper") and not args:
             return getattr(t, name)()
+        if name in ("replace", "strip", "lstrip", "rstrip", "split", "rsplit", "startswith", "endswith", "find", "rfind", "index", "count",
+                    "translate", "isupper", "islower", "isdigit", "isalpha", "title", "capitalize", "casefold", "swapcase", "partition",
+                    "rpartition", "zfill", "ljust", "rjust", "center", "splitlines", "expandtabs") and not kwargs \
+                and all(_concrete(a) for a in args):
+            # a pure method of a constant string on constant arguments
+            try:
+                res = getattr(t, name)(*[a.c if isinstance(a, Aff) else a for a in args])
+            except (ValueError, TypeError, IndexError) as exc:
+                raise RaiseSig(AExc(type(exc).__name__, [str(exc)], {}))
+            return AList(list(res), I.loop_depth) if isinstance(res, list) else res
     if bm.kind == "lib-super":
         return lib_super_call(fr, t, name, args, kwargs, node)
     if bm.kind == "coll":
@@ -3257,6 +3481,8 @@ def lib_super_call(fr: Frame, rec, name: str, args, kwargs, node):
 
 def map_getitem(fr: Frame, m: AMap, key):
     I = fr.I
+    given = key  # (a KeyError carries the key object it was asked for)
+    key = I.key_of(key)
     if isinstance(key, Term):
         for k in m.removes:
             if k == key:
@@ -3271,11 +3497,14 @@ def map_getitem(fr: Frame, m: AMap, key):
     I.path.effects.append(("map-getitem", m.base, key))
     if known:
         return m.value_for(key)
-    raise RaiseSig(AExc("KeyError", [key], {}))
+    raise RaiseSig(AExc("KeyError", [given], {}))
 
 
 def map_method(fr: Frame, m, name, args, kwargs, node):
     I = fr.I
+    given = args[0] if args else None
+    if name in ("setdefault", "get", "pop") and args:
+        args = [I.key_of(args[0], node)] + list(args[1:])
     if isinstance(m, AMapGen):
         if name in ("items",):
             return Term("items", m)
@@ -3324,7 +3553,7 @@ def map_method(fr: Frame, m, name, args, kwargs, node):
             return m.value_for(key)
         if len(args) > 1:
             return args[1]
-        raise RaiseSig(AExc("KeyError", [key], {}))
+        raise RaiseSig(AExc("KeyError", [given], {}))
     if name == "values":
         return Term("values", Term(repr(m)))
     if name == "keys":
@@ -3364,6 +3593,14 @@ def lib_call(fr: Frame, dotted: str, args, kwargs, node):
             I.path.cons.add(t)
             I.path.effects.append(("map-len", v.base))
             return t
+        if isinstance(v, AObj) and isinstance(v.cls, ClassInfo):
+            owner, raw = I.p.class_attr_def(v.cls, "__len__")
+            if isinstance(raw, FuncInfo):
+                return I.call_function(raw, [v], {}, node)
+        if isinstance(v, AStruct) and v.kind == "cut-sites":
+            t = Aff.sym("len(%r)" % (v.fields["frags"],))
+            I.path.cons.add(t - 1)
+            return t - 1
         if isinstance(v, AStruct) and v.kind in ("Location", "FeatureLocation"):
             # Biopython (T3): the number of positions a location covers -- end - start for a single part
             pv = v.fields.get("parts_value")
@@ -3537,6 +3774,18 @@ def lib_call(fr: Frame, dotted: str, args, kwargs, node):
         return I.new_term("set")
     if dotted == "builtins.tuple" and len(args) == 1 and (isinstance(args[0], (list, tuple)) or (isinstance(args[0], AList) and not args[0].generic)):
         return tuple(args[0].items if isinstance(args[0], AList) else args[0])
+    if dotted == "builtins.tuple" and len(args) == 1 and isinstance(args[0], AList) and args[0].generic and not getattr(args[0], "_consumed", False):
+        # one image per element of an input collection, frozen: walked like the list it was made from (tuples of that kind
+        # are only iterated, measured and unpacked by the code under analysis)
+        src = args[0]
+        if getattr(src, "_one_shot", None):
+            src._consumed = True
+        out = AList(list(src.items), I.loop_depth)
+        out.generic, out.generic_from, out.min_len = src.generic, src.generic_from, src.min_len
+        for extra in ("source", "filtered"):
+            if hasattr(src, extra):
+                setattr(out, extra, getattr(src, extra))
+        return out
     if dotted in ("builtins.sorted", "builtins.set", "builtins.frozenset", "builtins.tuple") and len(args) >= 1:
         return Term(short, _t(args[0]))
     if dotted == "builtins.next" and args and isinstance(args[0], Term) and args[0].op in ("filter", "map"):
@@ -3605,6 +3854,11 @@ def lib_call(fr: Frame, dotted: str, args, kwargs, node):
             return AList([(start + i, x) for i, x in enumerate(items)], I.loop_depth)
     if dotted == "builtins.enumerate":
         return Term("enumerate", _t(args[0]))
+    if dotted == "builtins.str.maketrans" and args and not kwargs and all(_concrete(a) for a in args):
+        try:
+            return str.maketrans(*args)
+        except (ValueError, TypeError) as exc:
+            raise RaiseSig(AExc(type(exc).__name__, [str(exc)], {}))
     if dotted == "builtins.dict":
         if len(args) == 1 and not kwargs and isinstance(args[0], Term) and args[0].op == "items" and args[0].args and isinstance(args[0].args[0], AMapGen):
             return AMapGen(args[0].args[0].name, args[0].args[0].value)
@@ -3614,6 +3868,10 @@ def lib_call(fr: Frame, dotted: str, args, kwargs, node):
             return dict(kwargs)  # dict(a=x, b=y)
         if len(args) == 1 and isinstance(args[0], dict):
             out = dict(args[0])  # a shallow copy: nested values stay shared
+            out.update(kwargs)
+            return out
+        if len(args) == 1 and isinstance(args[0], (tuple, list)) and all(isinstance(x, (tuple, list)) and len(x) == 2 for x in args[0]):
+            out = {_hashable(k): v for k, v in args[0]}  # dict(pairs, extra=...)
             out.update(kwargs)
             return out
         if len(args) == 1 and isinstance(args[0], Term):
